@@ -1,14 +1,17 @@
 #!/venv/bin/python
-"""Confirm a seeded change and run our checks against it.
+"""Confirm a seeded change and run our checks against it, in an ISOLATED copy of /repo and /verif
+(so that neither the real /repo nor concurrently running checks are disturbed).
 
-usage: tools/seedtest.py <PID> <patch.diff> <demo.py> [--tier quick|thorough] [--props C06,C07]
- 1. demo on the unchanged /repo must exit 0
- 2. git -C /repo apply patch; demo must exit != 0
- 3. run ./check for the property (and any extra props) -> record VIOLATION lines
- 4. git -C /repo checkout -- .   (always)
+usage: tools/seedtest.py <PID> <patch.diff> <demo.py> [--tier quick|thorough] [--props C06,C07] [--store <id>]
+ 1. copy /repo -> /scratch/seedrun_<n>/repo and /verif (with .lake) -> /scratch/seedrun_<n>/verif
+ 2. demo on the unchanged copy must exit 0
+ 3. git apply patch in the copy; demo must exit != 0
+ 4. run the copy's ./check for the property (and extra props) with COPULAS_REPO/PYTHONPATH pointing at the copy
+ 5. delete the copies.  With --store <id>: write /verif/seeded/<id>/{patch.diff, demo.py, meta.json}
 Prints a JSON summary."""
 import json
 import os
+import shutil
 import subprocess
 import sys
 
@@ -21,37 +24,78 @@ def sh(cmd, **k):
 
 def main():
     pid, patch, demo = sys.argv[1:4]
-    tier = 'quick'
-    props = [pid]
+    tier, props, store, meta_in = 'quick', [pid], None, None
     for i, a in enumerate(sys.argv):
         if a == '--tier':
             tier = sys.argv[i + 1]
         if a == '--props':
             props = sys.argv[i + 1].split(',')
-    out = {'property': pid, 'patch': patch}
-    assert sh('git -C /repo status --short').stdout.strip() == '', '/repo not clean'
-    env = dict(os.environ, PYTHONPATH='/repo')
-    r0 = sh(f'cd /repo && /venv/bin/python {demo}', env=env, timeout=600)
-    out['demo_unchanged_exit'] = r0.returncode
-    ap = sh(f'git -C /repo apply {patch}')
-    if ap.returncode != 0:
-        out['apply_error'] = ap.stderr[-300:]
-        print(json.dumps(out, indent=1))
-        return
+        if a == '--store':
+            store = sys.argv[i + 1]
+        if a == '--meta':
+            meta_in = sys.argv[i + 1]
+    root = f'/scratch/seedrun_{os.getpid()}'
+    repo, verif = f'{root}/repo', f'{root}/verif'
+    os.makedirs(root, exist_ok=True)
+    out = {'property': pid, 'patch': os.path.basename(patch)}
     try:
-        r1 = sh(f'cd /repo && /venv/bin/python {demo}', env=env, timeout=600)
+        sh(f'git -C /repo worktree list >/dev/null; cp -r /repo {repo}; rm -rf {repo}/.git/worktrees')
+        sh(f'rsync -a --exclude replays --exclude evidence {V}/ {verif}/')
+        env = dict(os.environ, PYTHONPATH=repo, COPULAS_REPO=repo)
+        r0 = sh(f'cd {repo} && /venv/bin/python {demo}', env=env, timeout=900)
+        out['demo_unchanged_exit'] = r0.returncode
+        ap = sh(f'cd {repo} && git apply {patch}')
+        if ap.returncode != 0:
+            out['apply_error'] = ap.stderr[-300:]
+            print(json.dumps(out, indent=1))
+            return
+        r1 = sh(f'cd {repo} && /venv/bin/python {demo}', env=env, timeout=900)
         out['demo_changed_exit'] = r1.returncode
         out['demo_changed_tail'] = (r1.stdout + r1.stderr)[-300:]
         out['checks'] = {}
         for p in props:
-            c = sh(f'cd {V} && ./check {p} --tier {tier}', timeout=3600)
+            c = sh(f'cd {verif} && ./check {p} --tier {tier}', env=env, timeout=3600)
             lines = [l for l in c.stdout.split('\n') if l.startswith(('VIOLATION', 'KNOWN-FINDING', p + ' ['))]
-            out['checks'][p] = {'exit': c.returncode, 'lines': lines[:6],
-                                'broken': [l.strip() for l in c.stdout.split('\n') if l.strip().startswith('broken:')][:4]}
+            classes = []
+            for l in lines:
+                if l.startswith('VIOLATION') and 'replay=' in l:
+                    rp = l.split('replay=')[1].split()[0]
+                    try:
+                        pl = json.load(open(os.path.join(verif, rp)))
+                        classes.append(pl.get('class') or pl.get('kind'))
+                    except Exception:  # noqa
+                        pass
+            out['checks'][p] = {
+                'exit': c.returncode,
+                'violation_lines': sum(1 for l in lines if l.startswith('VIOLATION')),
+                'with_failing_input': sum(1 for l in lines if l.startswith('VIOLATION') and 'no-failing-input-found' not in l),
+                'classes': classes[:8],
+                'summary': [l for l in lines if l.startswith(p + ' [')][:1],
+                'broken': [l.strip()[:220] for l in c.stdout.split('\n') if l.strip().startswith('broken:')][:4]}
     finally:
-        sh('git -C /repo checkout -- .')
-        sh('git -C /repo clean -fdq -- copulas')
-    out['repo_clean_after'] = sh('git -C /repo status --short').stdout.strip() == ''
+        shutil.rmtree(root, ignore_errors=True)
+    if store:
+        d = os.path.join(V, 'seeded', store)
+        os.makedirs(d, exist_ok=True)
+        shutil.copy(patch, os.path.join(d, 'patch.diff'))
+        shutil.copy(demo, os.path.join(d, 'demo.py'))
+        meta = {'breaks_property': pid}
+        if meta_in and os.path.exists(meta_in):
+            try:
+                m = json.load(open(meta_in))
+                meta['summary'] = m.get('summary')
+                meta['needs_to_manifest'] = m.get('needs')
+                meta['author_tests_run'] = m.get('tests_run')
+            except Exception:  # noqa
+                pass
+        meta['confirmed_by_us'] = {
+            'how': 'isolated copy of /repo: demo exit code on the unchanged tree and with the patch applied; then our checks',
+            'demo_exit_unchanged': out.get('demo_unchanged_exit'), 'demo_exit_changed': out.get('demo_changed_exit'),
+            'repo_head': sh('git -C /repo rev-parse --short HEAD').stdout.strip()}
+        meta['our_checks'] = out.get('checks')
+        meta['detected'] = any(c['exit'] == 1 for c in out.get('checks', {}).values())
+        with open(os.path.join(d, 'meta.json'), 'w') as f:
+            json.dump(meta, f, indent=1)
     print(json.dumps(out, indent=1))
 
 
